@@ -5,6 +5,7 @@ import Hgxv.Model.C09
   `mapping`                                            -> `i:label,...`
   `bininc` | `inc` | `adj` | `dual`                    -> matrix (`;` rows, `,` entries)
   `incord d k` | `mapord d k` | `adjord d` | `deg d` | `lap d` | `laps d`
+  `hye <N,E|-> <hyperedges as natss>`                -> matrix of `hye_list_to_binary_incidence`, or `rej`
   `tensor N`                                           -> values in row-major order, or `rej`
   `tload <times> <edges as natss> <weights as rats>`  -> `ok`        (temporal records)
   `ttimes` | `tadj t` | `tmap t` | `tadjord d t`  -/
@@ -31,6 +32,16 @@ def step (s : St) : List String → St × String
     | some t, some e, some w =>
       if e.length = w.length ∧ t.length = e.length then ({ s with recs := t.zip (e.zip w) }, "ok") else (s, "bad-op")
     | _, _, _ => (s, "bad-op")
+  | ["hye", shp, hy] =>
+    match natss? hy with
+    | some h =>
+      let shape : Option (Nat × Nat) := match nats? shp with
+        | some [n, e] => some (n, e)
+        | _ => none
+      match (hyeBinInc h shape : Option (List (List Rat))) with
+      | none => (s, "rej")
+      | some m => (s, showRatss m)
+    | none => (s, "bad-op")
   | ["mapping"] => (s, showMap (mapping s.nodes))
   | ["bininc"] => (s, showRatss (binInc s.nodes (edges s)))
   | ["inc"] => (s, showRatss (inc s.nodes s.es))
